@@ -437,10 +437,10 @@ class QueryMixin:
             return
         for i, s in enumerate(srcs):
             cond = s.on_node if i > 0 else None
-            if i == 0 or (s.join == 'INNER' and s.on_node is None):
+            if i == 0 or (s.join in ('INNER', 'CROSS') and s.on_node is None):
                 cond = where if i == 0 else None
             s.plan = self._plan_lookup(s, i, srcs, cond, X, sc)
-            if s.plan is None and i > 0 and s.join == 'INNER' and where is not None:
+            if s.plan is None and i > 0 and s.join in ('INNER', 'CROSS') and where is not None:
                 s.plan = self._plan_lookup(s, i, srcs, where, X, sc)
 
         def rec(i, rm):
